@@ -459,6 +459,47 @@ pub fn run_source(src: &str, opts: RunOpts) -> Obs {
 /// every mode runs on the same AST, facts and plan (used for very large programs, where the
 /// front end dominates). Must be called inside an isolated child.
 pub fn run_source_shared(src: &str, modes: &[RunOpts]) -> Vec<Obs> {
+    run_source_shared_measured(src, modes, false).0
+}
+
+/// The eleven limited quantities of an accepted program, measured through the public counting
+/// API (`facts` vector lengths, `cfg::count_program`) and combined as `limits.rs` documents for
+/// the two derived event bounds. Order: functions, locals, scopes, statements, cfg ops, max ops
+/// in one function, cfg blocks, max blocks in one function, direct user calls, summary events,
+/// liveness events.
+pub type Measures = [u64; 11];
+
+fn measure(facts: &naijascript::analysis::facts::ProgramFacts<'_, '_>, arena: &Arena) -> Measures {
+    use naijascript::analysis::{cfg, ids::FunctionId};
+    let counts = cfg::count_program(facts, arena);
+    let functions = facts.functions.len() as u64;
+    let locals = facts.locals.len() as u64;
+    let max_ops = counts.function_ops.iter().copied().map(u64::from).max().unwrap_or(0);
+    let max_blocks = counts.function_blocks.iter().copied().map(u64::from).max().unwrap_or(0);
+    let summary = functions.saturating_mul(functions.saturating_add(locals.saturating_mul(2) + 2));
+    let mut liveness = 0u64;
+    for (i, (b, o)) in counts.function_blocks.iter().zip(counts.function_ops.iter()).enumerate() {
+        let r = facts.local_range(FunctionId(i as u32));
+        let per = u64::from(*b).saturating_mul(2).saturating_add(u64::from(*o));
+        liveness = liveness.saturating_add(per.saturating_mul(u64::from(r.end - r.start)));
+    }
+    [
+        functions,
+        locals,
+        facts.scopes.len() as u64,
+        facts.stmt_effects.len() as u64,
+        u64::from(counts.total_ops),
+        max_ops,
+        u64::from(counts.total_blocks),
+        max_blocks,
+        facts.user_calls.len() as u64,
+        summary,
+        liveness,
+    ]
+}
+
+/// [`run_source_shared`] plus, when asked and the program is accepted, its [`Measures`].
+pub fn run_source_shared_measured(src: &str, modes: &[RunOpts], want_measures: bool) -> (Vec<Obs>, Option<Measures>) {
     let first = modes[0];
     let arena = Arena::new(first.persistent_cap).expect("reserve persistent arena");
     let empty = || Obs {
@@ -479,7 +520,7 @@ pub fn run_source_shared(src: &str, modes: &[RunOpts]) -> Vec<Obs> {
         let mut o = empty();
         o.stage = Stage::ParseRejected;
         o.front = collect_diags(parse_errors);
-        return modes.iter().map(|_| o.clone()).collect();
+        return (modes.iter().map(|_| o.clone()).collect(), None);
     }
     let mut resolver = Resolver::new(&arena);
     resolver.resolve(root);
@@ -487,7 +528,7 @@ pub fn run_source_shared(src: &str, modes: &[RunOpts]) -> Vec<Obs> {
     base.front = collect_diags(&resolver.errors);
     if resolver.errors.has_errors() {
         base.stage = Stage::ResolveRejected;
-        return modes.iter().map(|_| base.clone()).collect();
+        return (modes.iter().map(|_| base.clone()).collect(), None);
     }
     base.plan = resolver
         .optimization_plan
@@ -514,7 +555,9 @@ pub fn run_source_shared(src: &str, modes: &[RunOpts]) -> Vec<Obs> {
         obs.runtime = collect_diags(&runtime.errors);
         out.push(obs);
     }
-    out
+    // after the runs: a run-time divergence is reported as such
+    let measures = want_measures.then(|| measure(&resolver.facts, &arena));
+    (out, measures)
 }
 
 /// Result of running one program in one mode inside an isolated child.
